@@ -100,8 +100,7 @@ ensures
 ''')),
     ])
     s.impl(r"LexedStr<'_>", [
-        ('to_input', dict(ret='r', props=P + ['C15'], rewrites=[('D14', "!self.text(i).ends_with('.')", '!str_ends_with_dot(self.text(i))'),
-                                                      ('D15', 'crate::Input', 'Input', 2)],
+        ('to_input', dict(ret='r', props=P + ['C15'], rewrites=[('D15', 'crate::Input', 'Input', 2)],      # (`.ends_with('.')` is routed by the generic D32)
                           loops={1: '''invariant
     self.wf(), self.ntok() <= 0x7fff_fff0, i <= self.ntok(),
     forall|j: int| 0 <= j < self.ntok() ==> #[trigger] self.kind@[j] != SyntaxKind::EOF,
